@@ -162,6 +162,10 @@ func quickYears(seed int64, maxYear int) []int {
 			in[y] = true
 		}
 	}
+	// century years: the Julian and Gregorian leap rules differ exactly there
+	for y := 100; y <= 2400 && y <= maxYear; y += 100 {
+		in[y] = true
+	}
 	ys := make([]int, 0, len(in))
 	for y := range in {
 		ys = append(ys, y)
@@ -603,6 +607,9 @@ func narrowShards(tier string, seed int64) []Shard {
 		if y%97 == int(((seed%97)+97)%97) {
 			in[y] = true
 		}
+	}
+	for y := 100; y <= 2400; y += 200 {
+		in[y] = true
 	}
 	var ys []int
 	for y := range in {
